@@ -978,6 +978,24 @@ def _run_case(case, cfg):
                         if v2["reproduced"]:
                             v2["detail"] += " (witness on the grid Z/16)"
                             viol = v2
+                    if not viol["reproduced"] and hasattr(ctx, "particles"):
+                        # ... or a concrete witness of the path exploration on which the goal evaluates to false
+                        try:
+                            ctx._replenish()
+                        except Exception:
+                            pass
+                        for part in list(ctx.particles)[:8]:
+                            try:
+                                if ctx._consistent(part) and ctx._peval(g, part) is False:
+                                    v3 = _confirm(case, gname, ParticleModel(part), ctx, env, goal_index=gi, cfg=cfg,
+                                                  obligation=gname.startswith("defined["))
+                                    rep["replays"] += 1
+                                    if v3["reproduced"]:
+                                        v3["detail"] += " (concrete witness of the path exploration)"
+                                        viol = v3
+                                        break
+                            except Exception:
+                                continue
                 rep["violations"].append(viol)
     n_live = sum(rep["path_status"].get(k, 0) for k in ("ok", "raised"))
     if n_live and not reached and not rep["gaps"] and rep["path_status"].get("vacuous", 0) >= n_live:
